@@ -29,13 +29,7 @@ Qed.
 Lemma dsegP_a a b : dsegP a a b = 0.
 Proof. unfold dsegP, SimplifyG.dseg. apply dseg_at_a. Qed.
 Lemma dsegP_b a b : dsegP b a b = 0.
-Proof.
-  unfold dsegP, SimplifyG.dseg. destruct a as [[x1 y1] i], b as [[x2 y2] j]. cbn [fst snd].
-  destruct (Req_dec x1 x2) as [Ex|Ex]; [destruct (Req_dec y1 y2) as [Ey|Ey]|].
-  - subst. apply dseg_at_a.
-  - apply dseg_at_b. intros [= _ E]. contradiction.
-  - apply dseg_at_b. intros [= E _]. contradiction.
-Qed.
+Proof. unfold dsegP, SimplifyG.dseg. apply dseg_at_b. Qed.
 
 (* C16 for the bit-exact model's real instance: subsequence, end points, termination, tolerance *)
 Theorem dp_generic eps d0 (L : list P) : 0 < eps -> L <> [] ->
